@@ -8,9 +8,38 @@ globals().update(P.make('C13', 'conv probe in LMTP mode: every recipient list up
 from vlib.core import Group as _Group
 from vlib.props import C20 as _C20
 _g0 = groups
-RULE = RULE + " | sched probe (LMTP cases): every order of {aborted delivery completes, next transaction arrives, its delivery completes}"
+RULE = RULE + " | conv probe: BDAT LAST that cannot be delivered (backend gives up inside the chunk: error, nil, panic; statuses set or not): one reply per accepted recipient, in order, each naming its recipient | sched probe (LMTP cases): every order of {aborted delivery completes, next transaction arrives, its delivery completes}"
+
+
+def lastfail_cases(tier, rng):
+    """one LMTP transaction whose BDAT … LAST cannot be delivered: the backend gives up inside the LAST chunk (or has given up in an
+    earlier chunk? no: then that chunk fails), returns an error, nil, or panics; per-recipient backends have set some statuses"""
+    cases = []
+    A, B = b"Postmaster@x.org", b"b@y.net"
+    for sess in (0, 1):
+        for rcpts in ([A], [A, B], [B, A, B], [A, A]):
+            for want in (0, 2, 5):
+                for ret in ("ok", g.se(550, "5.7.1", b"no thanks"), g.er(b"disk full"), "panic"):
+                    for chunks in ((b"BDAT 8 LAST\r\nabcdefgh",), (b"BDAT 3\r\nabc", b"BDAT 5 LAST\r\ndefgh")):
+                        if len(chunks) == 2 and want < 3:
+                            continue      # the first chunk would be the one that fails
+                        sts = []
+                        if sess and rng.random() < 0.6:
+                            sts = [(rng.choice(rcpts), rng.choice(["ok", g.se(452, "4.2.2", b"over quota")]))]
+                        c = g.Conv(dict(lmtp=1, lmtpsess=sess))
+                        c.add(b"LHLO x\r\n", NS="ok"); c.add(b"MAIL FROM:<s@x>\r\n", MAIL="ok")
+                        for a in rcpts:
+                            c.add(b"RCPT TO:<" + a + b">\r\n", RCPT="ok")
+                        for i, ch in enumerate(chunks):
+                            c.add(ch, **(dict(DATA=g.ddec(want=want, rsz=1, ret=ret, statuses=sts)) if i == 0 else {}))
+                        P.markers(c)
+                        for seg in ("one", "line"):
+                            cases.append(c.case(seg=seg, rng=rng) + "\tTAG=lastfail")
+    return cases
 
 
 def groups(tier, rng):
     sc = [c for c in _C20.sched_cases(tier, rng) if not c.endswith("TAG=lifecycle") and "lmtp=1" in c]
-    return _g0(tier, rng) + [_Group("sched/lmtp-delivery-orders", sc, project=_C20.project, theorems=THEOREMS)]
+    return _g0(tier, rng) + [_Group("sched/lmtp-delivery-orders", sc, project=_C20.project, theorems=THEOREMS),
+                             _Group("conv/bdat-last-that-fails", lastfail_cases(tier, rng),
+                                    project=lambda case, a: cc.project(a, codes="exact", enh=True, lmtp=True, drecs="ret"), theorems=THEOREMS)]
